@@ -142,6 +142,12 @@ func (d *DADouble) SubmitWithOptions(ctx context.Context, blobs []coreda.Blob, g
 		if out == "acklost" {
 			err = errors.New("dadouble: acknowledgement lost")
 		}
+	case len(out) > 8 && out[:8] == "acklost:":
+		fmt.Sscanf(out[8:], "%d", &accept)
+		if accept > len(blobs) {
+			accept = len(blobs)
+		}
+		err = errors.New("dadouble: acknowledgement lost")
 	case len(out) > 7 && out[:7] == "prefix:":
 		fmt.Sscanf(out[7:], "%d", &accept)
 		if accept > len(blobs) {
@@ -178,9 +184,6 @@ func (d *DADouble) SubmitWithOptions(ctx context.Context, blobs []coreda.Blob, g
 	d.mu.Unlock()
 	d.tr.Emit("DASubmit", F{"blobs": sums, "res": out, "acc": accept, "dah": int(height), "nb": len(blobs)})
 	if err != nil {
-		if out == "acklost" {
-			return nil, err
-		}
 		return nil, err
 	}
 	return ids, nil
